@@ -144,6 +144,9 @@ func New(o Opts) *World {
 	var params []byte
 	if o.Cred == "password" {
 		params = []byte{0, 0, 0, 64} // keep PBKDF2 cheap: the KDC advertises 64 iterations
+		if o.PreAuth == "assumed" {
+			params = nil // without a hint from the KDC the client can only use the default parameters
+		}
 		w.KDC.AddPasswordPrincipal([]string{User}, Password, o.ETypes, o.Salt, params)
 	} else {
 		p := w.KDC.AddKeyPrincipal([]string{User}, o.ETypes)
